@@ -50,7 +50,7 @@ func Run(o RunOpts, argv ...string) ExecResult {
 	cmd.Stdout = &so
 	cmd.Stderr = &se
 	cmd.SysProcAttr = &syscall.SysProcAttr{Setpgid: true}
-	cmd.WaitDelay = 2 * time.Second
+	cmd.WaitDelay = 10 * time.Second
 	err := cmd.Run()
 	res := ExecResult{Stdout: so.Bytes(), Stderr: se.Bytes()}
 	if cmd.Process != nil {
@@ -72,7 +72,9 @@ func Run(o RunOpts, argv ...string) ExecResult {
 			}
 			return res
 		}
+		// the command could not be run / its pipes could not be drained: never a verdict
 		res.Exit = -2
+		res.TimedOut = true
 		res.Stderr = append(res.Stderr, []byte("\nexec error: "+err.Error())...)
 	}
 	return res
